@@ -123,6 +123,28 @@ Proof.
   cbn. apply seqb_refl.
 Qed.
 
+(* ================= through the middleware entry point (C13) ================= *)
+(* whatever m.Binding and the IdP's endpoints are, with a method configured the
+   AuthnRequest that HandleStartAuthFlow sends is signed or the flow is refused *)
+Theorem mw_start_signed mbinding hr m kt o :
+  nonempty m = true -> mw_start mbinding hr m kt = Ok o ->
+  (o = MwRedirect true \/ o = MwPost true) /\ exists h, signing_context m kt = Ok h.
+Proof.
+  intros Hm. unfold mw_start, make_message, xml_signed. rewrite Hm. cbn [andb].
+  destruct (seqb (mw_resolve mbinding hr) HTTP_REDIRECT).
+  - cbn [bind]. destruct (signing_context m kt) as [h| |]; cbn [bind]; try discriminate.
+    intros H. inversion H. split; [now left|eauto].
+  - destruct (seqb (mw_resolve mbinding hr) HTTP_POST).
+    + destruct (signing_context m kt) as [h| |]; cbn [bind]; try discriminate.
+      intros H. inversion H. split; [now right|eauto].
+    + cbn [bind]. discriminate.
+Qed.
+
+Theorem mw_start_resolves mbinding hr :
+  mbinding = EmptyString ->
+  mw_resolve mbinding hr = (if hr then HTTP_REDIRECT else HTTP_POST).
+Proof. intros ->. reflexivity. Qed.
+
 (* ================= the hand-assembled AuthnRequest query ================= *)
 Section AuthnQuery.
   Variable sign : string -> string.
